@@ -730,3 +730,12 @@ def def_of_local(body, l):
     if len(ds) == 1:
         return ds[0]
     return None
+
+
+_ATOMIC_RE = re.compile(r"(?:^|::)atomic::Atomic(?:::<[^>]*>|[A-Z][A-Za-z0-9]*)?::([a-z_]+)$")
+
+
+def atomic_op(t):
+    """Name of the std atomic operation called (load, store, fetch_add, ...) or None."""
+    m = _ATOMIC_RE.search(callee_def(t))
+    return m.group(1) if m else None
